@@ -61,17 +61,60 @@ theorem mem_checkProbes (c : Config) (has : PyStr → Bool) (name : PyStr) (op :
     · exact Or.inr h
     · exact h.symm
 
-@[simp] theorem probeEvs_filter_effect (id : Nat) (ns : List PyStr) :
-    (probeEvs id ns).filter Ev.isEffect = [] := by
+/-- an object whose `hasattr` is pure: evaluating an attribute does nothing else -/
+def PureProbes (o : Obj) : Prop := ∀ n, o.probeExtra n = []
+
+theorem mem_probeEvs (o : Obj) (ns : List PyStr) (e : Ev) (h : e ∈ probeEvs o ns) :
+    ∃ n ∈ ns, e = .probe o.id n ∨ e ∈ o.probeExtra n := by
+  induction ns with
+  | nil => simp [probeEvs] at h
+  | cons n ns ih =>
+    simp only [probeEvs, List.mem_cons, List.mem_append] at h
+    rcases h with rfl | h | h
+    · exact ⟨n, by simp, Or.inl rfl⟩
+    · exact ⟨n, by simp, Or.inr h⟩
+    · obtain ⟨n', hn', hh⟩ := ih h
+      exact ⟨n', by simp [hn'], hh⟩
+
+theorem probeEvs_congr (o o' : Obj) (hid : o.id = o'.id) (hpe : o.probeExtra = o'.probeExtra) (ns : List PyStr) :
+    probeEvs o ns = probeEvs o' ns := by
   induction ns with
   | nil => rfl
-  | cons n ns ih => simp [probeEvs, Ev.isEffect]
+  | cons n ns ih => simp [probeEvs, hid, hpe, ih]
 
-theorem mem_probeEvs (id : Nat) (ns : List PyStr) (e : Ev) (h : e ∈ probeEvs id ns) :
-    ∃ n ∈ ns, e = .probe id n := by
-  simp [probeEvs] at h
-  obtain ⟨n, hn, rfl⟩ := h
-  exact ⟨n, hn, rfl⟩
+theorem probeEvs_pure (o : Obj) (hp : PureProbes o) (ns : List PyStr) : probeEvs o ns = ns.map (Ev.probe o.id) := by
+  induction ns with
+  | nil => rfl
+  | cons n ns ih => simp [probeEvs, hp n, ih]
+
+theorem probeEvs_filter_effect (o : Obj) (hp : PureProbes o) (ns : List PyStr) :
+    (probeEvs o ns).filter Ev.isEffect = [] := by
+  rw [probeEvs_pure o hp]
+  induction ns with
+  | nil => rfl
+  | cons n ns ih => simp [Ev.isEffect]
+
+/-- every event is a `hasattr` probe of `o`, or something that evaluating the probed attribute did -/
+def OnlyProbes (o : Obj) (log : List Ev) : Prop :=
+  ∀ ev ∈ log, ∃ n, ev = .probe o.id n ∨ ev ∈ o.probeExtra n
+
+theorem onlyProbes_probeEvs (o : Obj) (ns : List PyStr) : OnlyProbes o (probeEvs o ns) := by
+  intro ev hev
+  obtain ⟨n, _, h⟩ := mem_probeEvs o ns ev hev
+  exact ⟨n, h⟩
+
+/-- a refused `_access_attr` on a hook-less object: nothing but probes; with a pure `hasattr`, no effect at all -/
+theorem run_denied (c : Config) (o : Obj) (nm : Name) (op : Op) (e : Err)
+    (hh : o.hook op = none) (h : (run c o nm op).out = .error e) :
+    OnlyProbes o (run c o nm op).log ∧ (PureProbes o → (run c o nm op).log.filter Ev.isEffect = []) := by
+  unfold run at h ⊢
+  cases hd : decodeName nm with
+  | error e' => exact ⟨by intro ev hev; simp at hev, fun _ => rfl⟩
+  | ok name =>
+    simp only [hd, runNamed, hh, runDefault] at h ⊢
+    cases hc : checkAttr c o.has name op with
+    | ok n => simp [hc] at h
+    | error e' => exact ⟨onlyProbes_probeEvs o _, fun hp => probeEvs_filter_effect o hp _⟩
 
 /-- a failed call-by-name failed before the call: the read failed, and nothing was added -/
 theorem thenCall_error (o : Obj) (r : Res) (e : Err) (h : (thenCall o r).out = .error e) :
@@ -80,6 +123,48 @@ theorem thenCall_error (o : Obj) (r : Res) (e : Err) (h : (thenCall o r).out = .
   cases hr : r.out with
   | ok a => cases a <;> simp [hr] at h
   | error e' => simp [hr] at h ⊢; exact h
+
+/-- the same for read-then-call (`callattr`, `ctxexit`, `cmp`, each stage of `oldslicing`) -/
+theorem getcall_denied (c : Config) (o : Obj) (nm : Name) (e : Err)
+    (hh : o.hook .get = none) (h : (thenCall o (run c o nm .get)).out = .error e) :
+    OnlyProbes o (thenCall o (run c o nm .get)).log
+    ∧ (PureProbes o → (thenCall o (run c o nm .get)).log.filter Ev.isEffect = []) := by
+  obtain ⟨hr, hl⟩ := thenCall_error o _ e h
+  rw [hl]
+  exact run_denied c o nm .get e hh hr
+
+/-- what read-then-call can reach on a hook-less object with a pure `hasattr`: only the one name `_check_attr`
+approved for the requested name — read, then (if it exists) called -/
+theorem getcall_effects (c : Config) (o : Obj) (nm : Name) (hh : o.hook .get = none) (hp : PureProbes o)
+    (ev : Ev) (hev : ev ∈ (thenCall o (run c o nm .get)).log) (heff : ev.isEffect = true) :
+    ∃ s n, decodeName nm = .ok s ∧ checkAttr c o.has s .get = .ok n
+      ∧ (ev = .access o.id .get n ∨ ev = .call o.id n) := by
+  unfold run at hev
+  cases hd : decodeName nm with
+  | error e' => simp [hd, thenCall] at hev
+  | ok name =>
+    simp only [hd, runNamed, hh, runDefault] at hev
+    cases hc : checkAttr c o.has name .get with
+    | error e' =>
+      simp only [hc, thenCall] at hev
+      rw [probeEvs_pure o hp] at hev
+      simp only [List.mem_map] at hev
+      obtain ⟨n, _, rfl⟩ := hev
+      simp [Ev.isEffect] at heff
+    | ok n =>
+      refine ⟨name, n, rfl, hc, ?_⟩
+      simp only [hc, thenCall] at hev
+      rw [probeEvs_pure o hp] at hev
+      cases hn : o.has n
+      · simp [hn] at hev
+        rcases hev with ⟨x, _, rfl⟩ | rfl
+        · simp [Ev.isEffect] at heff
+        · exact Or.inl rfl
+      · simp [hn] at hev
+        rcases hev with ⟨x, _, rfl⟩ | rfl | rfl
+        · simp [Ev.isEffect] at heff
+        · exact Or.inl rfl
+        · exact Or.inr rfl
 
 /-! ### `dict.update` facts -/
 
@@ -96,159 +181,250 @@ theorem applyOverlay_idem (c : Config) (ov : Overlay) : applyOverlay (applyOverl
 theorem onConnectSlave_idem (c : Config) : onConnectSlave (onConnectSlave c) = onConnectSlave c :=
   applyOverlay_idem c slaveOverlay
 
-/-! ### histories -/
+/-! ### the configuration heap -/
 
-@[simp] theorem setConn_dflt (w : World) (i : Nat) (s : ConnSt) : (w.setConn i s).dflt = w.dflt := rfl
-@[simp] theorem setConn_dicts (w : World) (i : Nat) (s : ConnSt) : (w.setConn i s).dicts = w.dicts := rfl
-@[simp] theorem setConn_same (w : World) (i : Nat) (s : ConnSt) : (w.setConn i s).conns i = s := by
-  simp [World.setConn]
-theorem setConn_other (w : World) (i j : Nat) (s : ConnSt) (h : j ≠ i) : (w.setConn i s).conns j = w.conns j := by
-  simp [World.setConn, h]
+@[simp] theorem setDict_dfltSet (w : HWorld) (r : Ref) (d : HDict) : (w.setDict r d).dfltSet = w.dfltSet := rfl
+@[simp] theorem setDict_conns (w : HWorld) (r : Ref) (d : HDict) : (w.setDict r d).conns = w.conns := rfl
+@[simp] theorem setDict_same (w : HWorld) (r : Ref) (d : HDict) : (w.setDict r d).dicts r = d := by
+  simp [HWorld.setDict]
+theorem setDict_other (w : HWorld) (r r' : Ref) (d : HDict) (h : r' ≠ r) : (w.setDict r d).dicts r' = w.dicts r' := by
+  simp [HWorld.setDict, h]
+@[simp] theorem hsetConn_dfltSet (w : HWorld) (i : Nat) (c : HConn) : (w.setConn i c).dfltSet = w.dfltSet := rfl
+@[simp] theorem hsetConn_dicts (w : HWorld) (i : Nat) (c : HConn) : (w.setConn i c).dicts = w.dicts := rfl
+@[simp] theorem hsetConn_same (w : HWorld) (i : Nat) (c : HConn) : (w.setConn i c).conns i = c := by
+  simp [HWorld.setConn]
+theorem hsetConn_other (w : HWorld) (i j : Nat) (c : HConn) (h : j ≠ i) : (w.setConn i c).conns j = w.conns j := by
+  simp [HWorld.setConn, h]
 
-/-- only the application's own `DEFAULT_CONFIG.update(..)` writes the module-level defaults: no connection event does -/
-theorem step_dflt (w : World) (e : Event) (h : ∀ ov, e ≠ .setDefault ov) : (step w e).dflt = w.dflt := by
+@[simp] theorem addToSafe_nil (w : HWorld) (ch : List Ref) : addToSafe w ch [] = w := rfl
+
+/-- the dict object a good-mode open creates for connection `i` -/
+def goodOwnDict (w : HWorld) (d : Nat) (classic : Bool) : HDict :=
+  if classic then ((w.dicts .dflt).update (w.dicts (.app d))).update slaveDict
+  else (w.dicts .dflt).update (w.dicts (.app d))
+
+theorem openConn_good_conns (w : HWorld) (i d : Nat) (classic : Bool) (k : Nat) :
+    (openConn Modes.good w i d classic).conns k = if k = i then .live [.own i] else w.conns k := by
+  cases classic <;> simp [openConn, Modes.good, initConn, headRef, HWorld.setConn]
+
+theorem openConn_good_dfltSet (w : HWorld) (i d : Nat) (classic : Bool) :
+    (openConn Modes.good w i d classic).dfltSet = w.dfltSet := by
+  cases classic <;> simp [openConn, Modes.good, initConn, headRef]
+
+theorem openConn_good_dicts (w : HWorld) (i d : Nat) (classic : Bool) (r : Ref) :
+    (openConn Modes.good w i d classic).dicts r = if r = .own i then goodOwnDict w d classic else w.dicts r := by
+  cases classic <;> by_cases hr : r = .own i <;>
+    simp [openConn, Modes.good, initConn, headRef, goodOwnDict, HWorld.setDict, hr]
+
+/-- a configuration is a function of the dict objects on its chain and of the default set object's content -/
+theorem lookB_congr (d d' : Ref → HDict) (ch : List Ref) (k : BKey) (h : ∀ r ∈ ch, d r = d' r) :
+    lookB d ch k = lookB d' ch k := by
+  induction ch with
+  | nil => rfl
+  | cons r rs ih => simp [lookB, h r (by simp), ih (fun x hx => h x (by simp [hx]))]
+
+theorem lookP_congr (d d' : Ref → HDict) (ch : List Ref) (h : ∀ r ∈ ch, d r = d' r) : lookP d ch = lookP d' ch := by
+  induction ch with
+  | nil => rfl
+  | cons r rs ih => simp [lookP, h r (by simp), ih (fun x hx => h x (by simp [hx]))]
+
+theorem lookS_congr (d d' : Ref → HDict) (ch : List Ref) (h : ∀ r ∈ ch, d r = d' r) : lookS d ch = lookS d' ch := by
+  induction ch with
+  | nil => rfl
+  | cons r rs ih => simp [lookS, h r (by simp), ih (fun x hx => h x (by simp [hx]))]
+
+theorem cfgOfChain_congr (w w' : HWorld) (ch : List Ref) (h : ∀ r ∈ ch, w.dicts r = w'.dicts r)
+    (hs : w.dfltSet = w'.dfltSet) : w.cfgOfChain ch = w'.cfgOfChain ch := by
+  have hsc : w.safeContent = w'.safeContent := by
+    funext v; cases v <;> simp [HWorld.safeContent, hs]
+  simp only [HWorld.cfgOfChain, lookP_congr _ _ ch h, lookS_congr _ _ ch h, hsc,
+    fun k => lookB_congr _ _ ch k h]
+
+/-- ownership: every established connection's `_config` is exactly the one dict object created for it -/
+def OwnInv (w : HWorld) : Prop :=
+  ∀ i ch, (w.conns i = .live ch ∨ w.conns i = .closed ch) → ch = [.own i]
+
+theorem ownInv_init : OwnInv HWorld.init := by
+  intro i ch h; simp [HWorld.init] at h
+
+theorem hstep_good_inv (w : HWorld) (e : HEvent) (h : OwnInv w) : OwnInv (hstep Modes.good w e) := by
+  intro j ch hj
   cases e with
-  | «open» i ov => cases hw : w.conns i <;> simp [step, hw]
-  | openWith i d => cases hw : w.conns i <;> simp [step, hw]
-  | slave i => cases hw : w.conns i <;> simp [step, hw]
-  | close i => cases hw : w.conns i <;> simp [step, hw]
-  | access i => rfl
-  | editDict d ov => rfl
-  | setDefault ov => exact absurd rfl (h ov)
+  | «open» i d classic =>
+    simp only [hstep] at hj
+    cases hw : w.conns i with
+    | fresh =>
+      simp only [hw, openConn_good_conns] at hj
+      by_cases hji : j = i
+      · subst hji; simp at hj; exact hj.symm
+      · simp [hji] at hj; exact h j ch hj
+    | live c => simp only [hw] at hj; exact h j ch hj
+    | closed c => simp only [hw] at hj; exact h j ch hj
+  | close i =>
+    simp only [hstep] at hj
+    cases hw : w.conns i with
+    | fresh => simp only [hw] at hj; exact h j ch hj
+    | live c =>
+      simp only [hw] at hj
+      by_cases hji : j = i
+      · subst hji
+        simp at hj
+        exact h j ch (Or.inl (by rw [hw, hj]))
+      · rw [hsetConn_other _ _ _ _ hji] at hj; exact h j ch hj
+    | closed c => simp only [hw] at hj; exact h j ch hj
+  | access i => exact h j ch hj
+  | editDict r ov => exact h j ch hj
+  | mutDfltSet names => exact h j ch hj
 
-/-- no connection event writes the application's dict objects -/
-theorem step_dicts (w : World) (e : Event) (h : e.isEnv = false) : (step w e).dicts = w.dicts := by
+@[simp] theorem initConn_conns (m : InitMode) (w : HWorld) (i d : Nat) : (initConn m w i d).1.conns = w.conns := by
+  cases m <;> rfl
+
+@[simp] theorem addToSafe_conns (w : HWorld) (ch : List Ref) (names : List PyStr) :
+    (addToSafe w ch names).conns = w.conns := by
+  unfold addToSafe
+  cases names with
+  | nil => rfl
+  | cons n ns =>
+    cases lookS w.dicts ch with
+    | none => rfl
+    | some v => cases v <;> rfl
+
+theorem openConn_conns_other (m : Modes) (w : HWorld) (i d : Nat) (classic : Bool) (j : Nat) (hj : j ≠ i) :
+    (openConn m w i d classic).conns j = w.conns j := by
+  unfold openConn
+  simp only [hsetConn_other _ _ _ _ hj]
+  cases classic <;> cases m.classic.writesCallerDict <;> simp
+
+/-- an event that is not connection `j`'s own leaves slot `j` alone — in every mode -/
+theorem hstep_conns_other (m : Modes) (w : HWorld) (e : HEvent) (j : Nat) (h : e.conn ≠ some j) :
+    (hstep m w e).conns j = w.conns j := by
   cases e with
-  | «open» i ov => cases hw : w.conns i <;> simp [step, hw]
-  | openWith i d => cases hw : w.conns i <;> simp [step, hw]
-  | slave i => cases hw : w.conns i <;> simp [step, hw]
-  | close i => cases hw : w.conns i <;> simp [step, hw]
+  | «open» i d classic =>
+    have hj : j ≠ i := fun x => h (by simp [HEvent.conn, x])
+    cases hw : w.conns i <;> simp [hstep, hw, openConn_conns_other _ _ _ _ _ _ hj]
+  | close i =>
+    have hj : j ≠ i := fun x => h (by simp [HEvent.conn, x])
+    cases hw : w.conns i <;> simp [hstep, hw, hsetConn_other _ _ _ _ hj]
   | access i => rfl
-  | editDict d ov => simp [Event.isEnv] at h
-  | setDefault ov => simp [Event.isEnv] at h
+  | editDict r ov => rfl
+  | mutDfltSet names => rfl
 
-theorem step_dflt_of_notEnv (w : World) (e : Event) (h : e.isEnv = false) : (step w e).dflt = w.dflt :=
-  step_dflt w e (fun ov he => by subst he; simp [Event.isEnv] at h)
-
-/-- an event that is not connection `j`'s own — another connection's, an edit of an application dict (even the very
-dict object `j` was opened with), an edit of `DEFAULT_CONFIG` — leaves slot `j` alone -/
-theorem step_other (w : World) (e : Event) (j : Nat) (h : e.conn ≠ some j) : (step w e).conns j = w.conns j := by
+/-- in the good mode no fair event writes the dict object of an ESTABLISHED connection, whoever's event it is -/
+theorem hstep_good_ownDict (w : HWorld) (e : HEvent) (j : Nat) (hf : e.fair = true) (hj : w.conns j ≠ .fresh) :
+    (hstep Modes.good w e).dicts (.own j) = w.dicts (.own j) := by
   cases e with
-  | «open» i ov => have hj : j ≠ i := fun x => h (by simp [Event.conn, x])
-                   cases hw : w.conns i <;> simp [step, hw, setConn_other _ _ _ _ hj]
-  | openWith i d => have hj : j ≠ i := fun x => h (by simp [Event.conn, x])
-                    cases hw : w.conns i <;> simp [step, hw, setConn_other _ _ _ _ hj]
-  | slave i => have hj : j ≠ i := fun x => h (by simp [Event.conn, x])
-               cases hw : w.conns i <;> simp [step, hw, setConn_other _ _ _ _ hj]
-  | close i => have hj : j ≠ i := fun x => h (by simp [Event.conn, x])
-               cases hw : w.conns i <;> simp [step, hw, setConn_other _ _ _ _ hj]
+  | «open» i d classic =>
+    cases hw : w.conns i with
+    | fresh =>
+      have hji : j ≠ i := fun x => hj (x ▸ hw)
+      simp [hstep, hw, openConn_good_dicts, hji]
+    | live c => simp [hstep, hw]
+    | closed c => simp [hstep, hw]
+  | close i => cases hw : w.conns i <;> simp [hstep, hw]
   | access i => rfl
-  | editDict d ov => rfl
-  | setDefault ov => rfl
+  | editDict r ov =>
+    cases r with
+    | own k => simp [HEvent.fair] at hf
+    | dflt => simp [hstep, setDict_other]
+    | app n => simp [hstep, setDict_other]
+  | mutDfltSet names => rfl
 
-/-- what an event does to slot `j` depends only on slot `j`, the defaults and the application's dicts -/
-theorem step_own (w w' : World) (e : Event) (j : Nat)
-    (hc : w.conns j = w'.conns j) (hd : w.dflt = w'.dflt) (hx : w.dicts = w'.dicts) :
-    (step w e).conns j = (step w' e).conns j := by
-  by_cases he : e.conn = some j
+theorem hstep_good_dfltSet (w : HWorld) (e : HEvent) (hf : e.fair = true) :
+    (hstep Modes.good w e).dfltSet = w.dfltSet := by
+  cases e with
+  | «open» i d classic => cases hw : w.conns i <;> simp [hstep, hw, openConn_good_dfltSet]
+  | close i => cases hw : w.conns i <;> simp [hstep, hw]
+  | access i => rfl
+  | editDict r ov => rfl
+  | mutDfltSet names => simp [HEvent.fair] at hf
+
+/-- rpyc itself (open / close / requests) never writes the module defaults nor a dict object of the application -/
+theorem hstep_good_sharedDicts (w : HWorld) (e : HEvent) (r : Ref) (hr : ∀ k, r ≠ .own k)
+    (he : ∀ ov, e ≠ .editDict r ov) : (hstep Modes.good w e).dicts r = w.dicts r := by
+  cases e with
+  | «open» i d classic =>
+    cases hw : w.conns i <;> simp [hstep, hw, openConn_good_dicts, hr i]
+  | close i => cases hw : w.conns i <;> simp [hstep, hw]
+  | access i => rfl
+  | editDict r' ov =>
+    have : r ≠ r' := fun x => he ov (by rw [x])
+    simp [hstep, setDict_other _ _ _ _ this]
+  | mutDfltSet names => rfl
+
+/-- **frozen**: in the good mode, an established connection's configuration survives every fair event -/
+theorem hstep_good_frozen (w : HWorld) (e : HEvent) (j : Nat) (hinv : OwnInv w) (hf : e.fair = true)
+    (hj : w.conns j ≠ .fresh) : (hstep Modes.good w e).cfgOf j = w.cfgOf j ∧ (hstep Modes.good w e).conns j ≠ .fresh := by
+  have hd := hstep_good_ownDict w e j hf hj
+  have hs := hstep_good_dfltSet w e hf
+  have key : ∀ ch, ch = [Ref.own j] → (hstep Modes.good w e).cfgOfChain ch = w.cfgOfChain ch := by
+    intro ch hch; subst hch
+    exact cfgOfChain_congr _ _ _ (by intro r hr; simp at hr; subst hr; exact hd) hs
+  by_cases hc : e.conn = some j
   · cases e with
-    | «open» i ov =>
-      simp only [Event.conn, Option.some.injEq] at he; subst he
-      simp only [step]
-      rw [← hc, ← hd]
-      cases hw : w.conns i <;> simp [← hc, hw]
-    | openWith i d =>
-      simp only [Event.conn, Option.some.injEq] at he; subst he
-      simp only [step]
-      rw [← hc, ← hd, ← hx]
-      cases hw : w.conns i <;> simp [← hc, hw]
-    | slave i =>
-      simp only [Event.conn, Option.some.injEq] at he; subst he
-      simp only [step]
-      rw [← hc]
-      cases hw : w.conns i <;> simp [← hc, hw]
+    | «open» i d classic =>
+      simp only [HEvent.conn, Option.some.injEq] at hc; subst hc
+      cases hw : w.conns i with
+      | fresh => exact absurd hw hj
+      | live c => simp [hstep, hw, HWorld.cfgOf]
+      | closed c => simp [hstep, hw, HWorld.cfgOf]
     | close i =>
-      simp only [Event.conn, Option.some.injEq] at he; subst he
-      simp only [step]
-      rw [← hc]
-      cases hw : w.conns i <;> simp [← hc, hw]
-    | access i => exact hc
-    | editDict d ov => exact hc
-    | setDefault ov => exact hc
-  · rw [step_other w e j he, step_other w' e j he, hc]
+      simp only [HEvent.conn, Option.some.injEq] at hc; subst hc
+      cases hw : w.conns i with
+      | fresh => exact absurd hw hj
+      | live c =>
+        have hch := hinv i c (Or.inl hw)
+        have := key c hch
+        simp only [hstep, hw] at this ⊢
+        simp [HWorld.cfgOf, hw, this]
+      | closed c => simp [hstep, hw, HWorld.cfgOf]
+    | access i => exact ⟨rfl, hj⟩
+    | editDict r ov => simp [HEvent.conn] at hc
+    | mutDfltSet names => simp [HEvent.conn] at hc
+  · have hcs := hstep_conns_other Modes.good w e j hc
+    refine ⟨?_, by rw [hcs]; exact hj⟩
+    simp only [HWorld.cfgOf, hcs]
+    cases hw : w.conns j with
+    | fresh => exact absurd hw hj
+    | live c => exact key c (hinv j c (Or.inl hw))
+    | closed c => exact key c (hinv j c (Or.inr hw))
 
-theorem step_env_congr (w w' : World) (e : Event) (hd : w.dflt = w'.dflt) (hx : w.dicts = w'.dicts) :
-    (step w e).dflt = (step w' e).dflt ∧ (step w e).dicts = (step w' e).dicts := by
-  cases e with
-  | «open» i ov => cases hw : w.conns i <;> cases hw' : w'.conns i <;> simp [step, hw, hw', hd, hx]
-  | openWith i d => cases hw : w.conns i <;> cases hw' : w'.conns i <;> simp [step, hw, hw', hd, hx]
-  | slave i => cases hw : w.conns i <;> cases hw' : w'.conns i <;> simp [step, hw, hw', hd, hx]
-  | close i => cases hw : w.conns i <;> cases hw' : w'.conns i <;> simp [step, hw, hw', hd, hx]
-  | access i => exact ⟨hd, hx⟩
-  | editDict d ov => simp [step, hd, hx]
-  | setDefault ov => simp [step, hd, hx]
+theorem hrun_good_inv (evs : List HEvent) (w : HWorld) (h : OwnInv w) : OwnInv (hrun Modes.good w evs) := by
+  induction evs generalizing w with
+  | nil => exact h
+  | cons e es ih => exact ih _ (hstep_good_inv w e h)
 
-theorem runEvents_dflt (w : World) (evs : List Event) (h : ∀ e ∈ evs, ∀ ov, e ≠ .setDefault ov) :
-    (runEvents w evs).dflt = w.dflt := by
+theorem hrun_good_frozen (evs : List HEvent) (w : HWorld) (j : Nat) (hinv : OwnInv w)
+    (hf : ∀ e ∈ evs, e.fair = true) (hj : w.conns j ≠ .fresh) : (hrun Modes.good w evs).cfgOf j = w.cfgOf j := by
   induction evs generalizing w with
   | nil => rfl
   | cons e es ih =>
-    simp only [runEvents]
-    rw [ih _ (fun x hx => h x (List.mem_cons_of_mem _ hx)), step_dflt w e (h e (List.mem_cons_self ..))]
+    obtain ⟨h1, h2⟩ := hstep_good_frozen w e j hinv (hf e (List.mem_cons_self ..)) hj
+    simp only [hrun]
+    rw [ih _ (hstep_good_inv w e hinv) (fun x hx => hf x (List.mem_cons_of_mem _ hx)) h2, h1]
 
-/-- noninterference, general form: two worlds that agree on slot `j`, on the defaults and on the application's dicts
-still agree on slot `j` after the one has run a whole history and the other only `j`'s own events plus the
-environment edits of it -/
-theorem runEvents_filter (j : Nat) (evs : List Event) (w w' : World)
-    (hc : w.conns j = w'.conns j) (hd : w.dflt = w'.dflt) (hx : w.dicts = w'.dicts) :
-    (runEvents w evs).conns j
-      = (runEvents w' (evs.filter (fun e => e.conn == some j || e.isEnv))).conns j := by
-  induction evs generalizing w w' with
-  | nil => simpa [runEvents] using hc
-  | cons e es ih =>
-    by_cases hk : (e.conn == some j || e.isEnv) = true
-    · simp only [runEvents, List.filter_cons, hk, if_true]
-      obtain ⟨h1, h2⟩ := step_env_congr w w' e hd hx
-      exact ih _ _ (step_own w w' e j hc hd hx) h1 h2
-    · have hk' : (e.conn == some j || e.isEnv) = false := by simpa using hk
-      simp only [runEvents, List.filter_cons, hk']
-      have hne : e.conn ≠ some j := by
-        intro h; simp [h] at hk'
-      have henv : e.isEnv = false := by
-        cases hh : e.isEnv <;> simp [hh] at hk' ⊢
-      exact ih _ _ (by rw [step_other w e j hne, hc]) (by rw [step_dflt_of_notEnv w e henv, hd])
-        (by rw [step_dicts w e henv, hx])
-
-/-- the states a slot can be in once it holds the snapshot `cfg`: that snapshot, with or without the classic-mode
-update, live or closed -/
-def Frozen (cfg : Config) (s : ConnSt) : Prop :=
-  s = .live cfg ∨ s = .live (onConnectSlave cfg) ∨ s = .closed cfg ∨ s = .closed (onConnectSlave cfg)
-
-theorem step_frozen (w : World) (e : Event) (j : Nat) (cfg : Config) (h : Frozen cfg (w.conns j)) :
-    Frozen cfg ((step w e).conns j) := by
-  by_cases he : e.conn = some j
-  · cases e with
-    | «open» i ov =>
-      simp only [Event.conn, Option.some.injEq] at he; subst he
-      rcases h with h | h | h | h <;> simp [step, h, Frozen]
-    | openWith i d =>
-      simp only [Event.conn, Option.some.injEq] at he; subst he
-      rcases h with h | h | h | h <;> simp [step, h, Frozen]
-    | slave i =>
-      simp only [Event.conn, Option.some.injEq] at he; subst he
-      rcases h with h | h | h | h <;> simp [step, h, Frozen, onConnectSlave_idem]
-    | close i =>
-      simp only [Event.conn, Option.some.injEq] at he; subst he
-      rcases h with h | h | h | h <;> simp [step, h, Frozen]
-    | access i => exact h
-    | editDict d ov => exact h
-    | setDefault ov => exact h
-  · rw [step_other w e j he]; exact h
-
-theorem runEvents_frozen (evs : List Event) (w : World) (j : Nat) (cfg : Config) (h : Frozen cfg (w.conns j)) :
-    Frozen cfg ((runEvents w evs).conns j) := by
+theorem hrun_conns_other (m : Modes) (evs : List HEvent) (w : HWorld) (j : Nat) (h : ∀ e ∈ evs, e.conn ≠ some j) :
+    (hrun m w evs).conns j = w.conns j := by
   induction evs generalizing w with
-  | nil => exact h
-  | cons e es ih => exact ih _ (step_frozen w e j cfg h)
+  | nil => rfl
+  | cons e es ih =>
+    simp only [hrun]
+    rw [ih _ (fun x hx => h x (List.mem_cons_of_mem _ hx)), hstep_conns_other m w e j (h e (List.mem_cons_self ..))]
+
+theorem hrun_good_sharedDicts (evs : List HEvent) (w : HWorld) (r : Ref) (hr : ∀ k, r ≠ .own k)
+    (he : ∀ e ∈ evs, ∀ ov, e ≠ .editDict r ov) : (hrun Modes.good w evs).dicts r = w.dicts r := by
+  induction evs generalizing w with
+  | nil => rfl
+  | cons e es ih =>
+    simp only [hrun]
+    rw [ih _ (fun x hx => he x (List.mem_cons_of_mem _ hx)),
+      hstep_good_sharedDicts w e r hr (he e (List.mem_cons_self ..))]
+
+theorem hrun_good_dfltSet (evs : List HEvent) (w : HWorld) (hf : ∀ e ∈ evs, e.fair = true) :
+    (hrun Modes.good w evs).dfltSet = w.dfltSet := by
+  induction evs generalizing w with
+  | nil => rfl
+  | cons e es ih =>
+    simp only [hrun]
+    rw [ih _ (fun x hx => hf x (List.mem_cons_of_mem _ hx)), hstep_good_dfltSet w e (hf e (List.mem_cons_self ..))]
 
 end Rpyc.Policy
